@@ -31,7 +31,9 @@ func runC03(m *Sim) {
 	h.Setup(1 + m.C.Int("devices", 3))
 	nops := 10 + m.C.Int("ops", 50)
 	for i := 0; i < nops; i++ {
-		switch m.C.Weighted("op", 8, 2, 3, 4, 4, 1) {
+		switch m.C.Weighted("op", 8, 2, 3, 4, 4, 1, 2) {
+		case 6:
+			h.OpReportBurst()
 		case 0:
 			h.OpReport()
 		case 1:
